@@ -276,7 +276,10 @@ def sort_assignments(
                 "Try to save the ODE to an .ode file first and load it again"
             )
             raise exceptions.GotranxError(msg)
-        sorter.add(assignment.name, *assignment.value.dependencies)
+        # The dependencies are a (frozen)set, whose iteration order depends on
+        # the hash seed. Sort them so that ties in the topological order are
+        # always broken in the same way
+        sorter.add(assignment.name, *sorted(assignment.value.dependencies))
 
     static_order = tuple(sorter.static_order())
 
